@@ -29,3 +29,25 @@ func VerifC20Consts() map[string]any {
 func VerifC20Chans(c *PunchPacketConn) (chan PunchPacketEvent, chan STUNPacketEvent) {
 	return c.events, c.stun
 }
+
+// VerifC20Registry returns a copy of the conn's registered attempts (id → metadata).
+func VerifC20Registry(c *PunchPacketConn) map[string]PunchMetadata {
+	c.mu.RLock()
+	defer c.mu.RUnlock()
+	out := make(map[string]PunchMetadata, len(c.attempts))
+	for k, v := range c.attempts {
+		out[k] = v
+	}
+	return out
+}
+
+// VerifC20PuncherIDs returns the ids the ServerPuncher currently routes events for.
+func VerifC20PuncherIDs(p *ServerPuncher) []string {
+	p.mu.Lock()
+	defer p.mu.Unlock()
+	out := make([]string, 0, len(p.attempts))
+	for k := range p.attempts {
+		out = append(out, k)
+	}
+	return out
+}
